@@ -108,7 +108,7 @@ class Std:
 
     def tag(s):
         return '%s%s(%s)%s%s' % (s.kind[:2], ''.join(str(p) for p in s.ports), ','.join(x if isinstance(x, str) else x[1] for x in s.sp),
-                                 '' if s.form == 'm' else '/ab', '' if s.brows is None else '[%dx%d]' % (s.brows, s.bcols))
+                                 '' if s.form == 'm' else '/' + s.form, '' if s.brows is None else '[%dx%d]' % (s.brows, s.bcols))
 
 
 class Config:
@@ -422,7 +422,7 @@ def add_standard(flow, cfg, st, k, mvals, avals, handles, val):
     bc = st.bcols if st.bcols is not None else cols
     b = flow.cmatrix([[v] for v in mvals])
     h = lambda spec: param_handle(flow, spec, handles, val)
-    if st.form == 'ab':
+    if st.form in ('ab', 'abc', 'abk'):
         if cfg.typ in (UE14, E12): ar, ac = 1, bc
         else: ar, ac = bc, bc
         a = flow.cmatrix([[v] for v in avals])
@@ -489,7 +489,13 @@ def oracle_measurements(cfg, st, k, sm, symbolic=True, rnd=None, mvalue=None):
     if mvalue is not None: Mb = [[mvalue(sm.rowmap[i], sm.colmap[j]) for j in range(bc)] for i in range(br)]
     else: Mb = [[csym('m%d_%d%d' % (k, i, j)) for j in range(bc)] for i in range(br)]
     avals = None
-    if st.form == 'ab':
+    kscale = None
+    if st.form in ('ab', 'abc', 'abk'):
+        if st.form == 'abk' and symbolic: kscale = csym('k%d' % k)      # constant matrix times a free complex scale factor
+        if st.form in ('abc', 'abk'):       # constant, well-conditioned reference matrix: no pivot forks in the library's B A^-1
+            symbolic = False
+            import random as _r
+            rnd = rnd or _r.Random(1000 + k)
         if cfg.typ in (UE14, E12):
             if symbolic: A = [csym('a%d_%d' % (k, j)) for j in range(bc)]
             else: A = [cconst(rnd.randint(1, 9), rnd.randint(-9, 9)) / cconst(7) for j in range(bc)]
@@ -498,6 +504,8 @@ def oracle_measurements(cfg, st, k, sm, symbolic=True, rnd=None, mvalue=None):
                 Mb = [[B[i][j] / A[j] for j in range(bc)] for i in range(br)]
             else:
                 B = [[Mb[i][j] * A[j] for j in range(bc)] for i in range(br)]
+            if kscale is not None:
+                A = [v * kscale for v in A]; B = [[v * kscale for v in row] for row in B]
             avals = A
         else:
             if symbolic: A = [[csym('a%d_%d%d' % (k, i, j)) for j in range(bc)] for i in range(bc)]
@@ -507,6 +515,8 @@ def oracle_measurements(cfg, st, k, sm, symbolic=True, rnd=None, mvalue=None):
                 Mb = mat_mul(B, mat_inv(A))
             else:
                 B = mat_mul(Mb, A)
+            if kscale is not None:
+                A = [[v * kscale for v in row] for row in A]; B = [[v * kscale for v in row] for row in B]
             avals = [A[i][j] for i in range(bc) for j in range(bc)]
         mvals = [B[i][j] for i in range(br) for j in range(bc)]
     else:
@@ -564,7 +574,7 @@ def e12_from_ue14(cfg, L, e, El):
     return out
 
 
-def symbolic_check(mod, cfg, choices=()):
+def symbolic_check(mod, cfg, choices=(), generic=True, holder=None):
     """one path of the symbolic run; raises irsym.Fork on an undecided comparison"""
     import z3, irsym
     from irsym import Rat
@@ -572,7 +582,10 @@ def symbolic_check(mod, cfg, choices=()):
     typ = E12U if cfg.typ == E12 else cfg.typ
     L = layout_doc(typ, cfg.rows, cfg.cols)
     flow = Flow(mod); it = flow.it
-    it.choices = list(choices)
+    if holder is not None:
+        holder['flow'] = flow
+        it.unwitnessed = bool(holder.get('unwitnessed'))
+    it.choices = list(choices); it.generic = generic
     flow.create(); flow.new_alloc(cfg.typ, cfg.rows, cfg.cols, 1)
     if flow.vnp.obj is None: res['error'] = 'vnacal_new_alloc failed: %s' % it.errors; return res, flow
     assert flow.set_frequencies([Fraction(10 ** 9)]) == 0
@@ -634,7 +647,7 @@ def symbolic_check(mod, cfg, choices=()):
         used = set()
         for i, r_ in enumerate(rows_):
             cands = [x for x in ekeys.get(_key(r_), []) if x[0] not in used]
-            hit = None
+            hit = None; n_unk0 = len(res['unknown'])
             for tag, er, sg in cands:
                 d = (r_ - er) if sg > 0 else (r_ + er)
                 if prove_zero([d], 'system %d row %d == %s documented residual %s' % (si, i, '+' if sg > 0 else '-', tag)):
@@ -648,13 +661,16 @@ def symbolic_check(mod, cfg, choices=()):
                         ex = [d.re, d.im]
                         st_, mdl = irsym.check_zero(it, ex, timeout_ms=20000); res['queries'] += 1
                         if st_ == 'unsat': res['unsat'] += 1; hit = tag; break
+                        if st_ == 'unknown': res['unknown'].append({'q': 'system %d row %d vs %s' % (si, i, tag), 'why': str(mdl)})
                     if hit: break
-            if hit is None:
+            if hit is None and len(res['unknown']) > n_unk0:
+                pass        # some comparison was not decided: the row is reported as unknown, not as a violation
+            elif hit is None:
                 res['sat'].append({'q': 'soundness: system %d row %d is a documented residual cell of some standard' % (si, i),
                                    'row': _key(r_)[:600], 'expected_cells': [t for t, _ in exp[si]]})
             else: used.add(hit)
         missing = [t for t, _ in exp[si] if t not in used]
-        if missing:
+        if missing and not res['unknown']:
             res['sat'].append({'q': 'completeness: system %d uses every documented residual cell whose factors are all known' % si, 'missing': missing})
     # --- placement of the stored error terms
     n_out = len(e) if cfg.typ != E12 else 3 * cfg.rows * cfg.cols
@@ -665,18 +681,33 @@ def symbolic_check(mod, cfg, choices=()):
     else:
         prove_zero([a - b_ for a, b_ in zip(stored, want)], 'placement: stored error terms == documented e(x) (unity inserted, leakage appended%s)' % (', E12 conversion' if cfg.typ == E12 else ''))
     res['steps'] = it.steps; res['funcs'] = sorted(it.funcs_run)
+    res['generic_assumed'] = [str(c)[:120] for c in it.generic_assumed]
+    res['unexplored'] = [str(c)[:160] for c in it.unexplored]
+    if getattr(it, 'unwitnessed', False):
+        # no evaluation point and no z3 verdict showed this combination of branch outcomes to be satisfiable: the queries above may be
+        # vacuous, and generic decisions on it were taken without a witness -> report, never count as decided
+        res['unknown'].append({'q': 'path feasibility', 'why': 'no witness point for the branch combination %s' % (list(choices),)})
     return res, flow
 
 
-def symbolic_all_paths(mod, cfg, max_paths=16):
+def symbolic_all_paths(mod, cfg, max_paths=16, generic=True):
+    """every feasible path of the symbolic run.  generic=True: symbolic equality tests take the '!=' branch (the set where two
+    free values coincide is outside the claim and listed per path as 'generic_assumed'); order comparisons fork."""
     import z3, irsym
-    todo = [[]]; results = []
+    todo = [[]]; results = []; unwitnessed = set()
     while todo:
         ch = todo.pop()
+        holder = {'unwitnessed': any(tuple(ch[:i]) in unwitnessed for i in range(len(ch) + 1))}
         try:
-            r, flow = symbolic_check(mod, cfg, ch)
+            r, flow = symbolic_check(mod, cfg, ch, generic=generic, holder=holder)
         except irsym.Fork as fk:
-            todo.append(ch + [True]); todo.append(ch + [False]); continue
+            it = holder['flow'].it
+            for b in (True, False):
+                c_ = z3.simplify(fk.cond if b else z3.Not(fk.cond))
+                fz = it._feasible(c_)
+                if fz == 'sat': todo.append(ch + [b])
+                elif fz != 'unsat': todo.append(ch + [b]); unwitnessed.add(tuple(ch + [b]))
+            continue
         r['path'] = ch
         results.append(r)
         if len(results) > max_paths: raise RuntimeError('too many paths')
@@ -858,3 +889,132 @@ def concrete_check(mod, cfg, seed=1, do_apply=True):
     if leaks: res['fail'].append('%d heap objects still allocated after vnacal_free' % len(leaks))
     res['steps'] = it.steps
     return res
+
+
+# ---------------------------------------------------------------------------------------------------------------------
+# native replay: the same flow as a C program against the gcc + ASan/UBSan build of the unmodified sources
+
+def native_program(cfg, seed=1, tol=1e-6, compare_with=None):
+    """C source of: forward-model measurements from random error terms -> vnacal_new_add_* -> solve -> add_calibration -> apply_m on a
+    random DUT -> compare with the DUT (exit 1 on any failing call or |difference| > tol).  compare_with: a second Config whose
+    calibration (same true terms, same DUT) must correct identically (C17)."""
+    rnd = random.Random(seed)
+    typ = E12U if cfg.typ == E12 else cfg.typ
+    L, et, Elt = true_terms(cfg, rnd)
+    P = cfg.ports
+    out = ['#include <stdio.h>', '#include <stdlib.h>', '#include <complex.h>', '#include <math.h>', '#include <errno.h>', '#include <string.h>', '#include <vnacal.h>', '',
+           'static void errfn(const char *msg, void *arg, vnaerr_category_t c) { fprintf(stderr, "libvna: %s\\n", msg); }',
+           '#define CHECK(x) do { if ((x) < 0) { fprintf(stderr, "FAILED: %s (errno %d: %s)\\n", #x, errno, strerror(errno)); exit(1); } } while (0)', '']
+    def cnum(v): return '%r + %r * I' % (float(v.re.value()), float(v.im.value()))
+    body = []
+    pvals = {}
+    def val(spec, tag):
+        if isinstance(spec, str): return cconst(PRE[spec][1])
+        if spec not in pvals: pvals[spec] = _rc(rnd, 8)
+        return pvals[spec]
+    Sd = None
+    def calibrate(cf_, tagc):
+        rows, cols = cf_.rows, cf_.cols
+        body.append('    vnacal_new_t *vnp%s = vnacal_new_alloc(vcp, VNACAL_%s, %d, %d, 1);' % (tagc, NAMES[cf_.typ], rows, cols))
+        body.append('    if (vnp%s == NULL) { fprintf(stderr, "vnacal_new_alloc failed\\n"); exit(1); }' % tagc)
+        body.append('    CHECK(vnacal_new_set_frequency_vector(vnp%s, fv));' % tagc)
+        handles = {}
+        def h(spec):
+            if isinstance(spec, str): return {'match': 'VNACAL_MATCH', 'zero': 'VNACAL_ZERO', 'open': 'VNACAL_OPEN', 'one': 'VNACAL_ONE', 'short': 'VNACAL_SHORT'}[spec]
+            if spec not in handles:
+                nm = 'p%s_%s' % (tagc, spec[1]); handles[spec] = nm
+                body.append('    int %s = vnacal_make_scalar_parameter(vcp, %s); CHECK(%s);' % (nm, cnum(val(spec, None)), nm))
+            return handles[spec]
+        for k, st in enumerate(cf_.stds):
+            sm = std_model(cf_, st, k, val)
+            S = [[sm.S[r][c] if sm.S[r][c] is not None else (_rc(random.Random(seed * 1000 + k * 37 + r * 5 + c), 8) if (r == c or (not sm.conn[r] and not sm.conn[c]) or (sm.conn[r] and sm.conn[c])) else cconst(0))
+                  for c in range(P)] for r in range(P)]
+            Mtrue = forward_M(cf_, L, et, Elt, S)
+            mvals, avals, Mfull = oracle_measurements(cf_, st, k, sm, symbolic=False, rnd=random.Random(seed * 77 + k), mvalue=lambda r, c: Mtrue[r][c])
+            br = st.brows if st.brows is not None else rows
+            bc = st.bcols if st.bcols is not None else cols
+            v = 'b%s_%d' % (tagc, k)
+            body.append('    static double complex %s_v[%d][1] = {%s};' % (v, len(mvals), ', '.join('{%s}' % cnum(x) for x in mvals)))
+            body.append('    double complex *%s[%d]; for (int i = 0; i < %d; ++i) %s[i] = %s_v[i];' % (v, len(mvals), len(mvals), v, v))
+            if st.form in ('ab', 'abc', 'abk'):
+                ar, ac = (1, bc) if cf_.typ in (UE14, E12) else (bc, bc)
+                a = 'a%s_%d' % (tagc, k)
+                body.append('    static double complex %s_v[%d][1] = {%s};' % (a, len(avals), ', '.join('{%s}' % cnum(x) for x in avals)))
+                body.append('    double complex *%s[%d]; for (int i = 0; i < %d; ++i) %s[i] = %s_v[i];' % (a, len(avals), len(avals), a, a))
+                pre = 'vnp%s, %s, %d, %d, %s, %d, %d' % (tagc, a, ar, ac, v, br, bc); sfx = ''
+            else:
+                pre = 'vnp%s, %s, %d, %d' % (tagc, v, br, bc); sfx = '_m'
+            if st.kind == 'single': call = 'vnacal_new_add_single_reflect%s(%s, %s, %d)' % (sfx, pre, h(st.sp[0]), st.ports[0])
+            elif st.kind == 'double': call = 'vnacal_new_add_double_reflect%s(%s, %s, %s, %d, %d)' % (sfx, pre, h(st.sp[0]), h(st.sp[1]), st.ports[0], st.ports[1])
+            elif st.kind == 'through': call = 'vnacal_new_add_through%s(%s, %d, %d)' % (sfx, pre, st.ports[0], st.ports[1])
+            elif st.kind == 'line':
+                hs = [h(x) for x in st.sp]
+                body.append('    int s%s_%d[4] = {%s};' % (tagc, k, ', '.join(hs)))
+                call = 'vnacal_new_add_line%s(%s, s%s_%d, %d, %d)' % (sfx, pre, tagc, k, st.ports[0], st.ports[1])
+            else:
+                hs = [h(x) for x in st.sp]
+                body.append('    int s%s_%d[%d] = {%s};' % (tagc, k, len(st.sp), ', '.join(hs)))
+                if st.map_null: pm = 'NULL'
+                else:
+                    body.append('    int pm%s_%d[%d] = {%s};' % (tagc, k, len(st.ports), ', '.join(str(p) for p in st.ports))); pm = 'pm%s_%d' % (tagc, k)
+                call = 'vnacal_new_add_mapped_matrix%s(%s, s%s_%d, %d, %d, %s)' % (sfx, pre, tagc, k, st.s_rows, st.s_cols, pm)
+            body.append('    CHECK(%s);' % call)
+        body.append('    CHECK(vnacal_new_solve(vnp%s));' % tagc)
+        body.append('    int ci%s = vnacal_add_calibration(vcp, "cal%s", vnp%s); CHECK(ci%s);' % (tagc, tagc, tagc, tagc))
+    calibrate(cfg, 'A')
+    if compare_with is not None: calibrate(compare_with, 'B')
+    rows, cols = cfg.rows, cfg.cols
+    if rows == cols:
+        Sd = [[_rc(rnd, 8) for c in range(P)] for r in range(P)]
+        Md = forward_M(cfg, L, et, Elt, Sd)
+        body.append('    static double complex md_v[%d][1] = {%s};' % (rows * cols, ', '.join('{%s}' % cnum(Md[r][c]) for r in range(rows) for c in range(cols))))
+        body.append('    double complex *md[%d]; for (int i = 0; i < %d; ++i) md[i] = md_v[i];' % (rows * cols, rows * cols))
+        body.append('    static const double complex sd[%d] = {%s};' % (P * P, ', '.join(cnum(Sd[r][c]) for r in range(P) for c in range(P))))
+        for tagc in (['A'] + (['B'] if compare_with is not None else [])):
+            body.append('    { vnadata_t *vdp = vnadata_alloc(errfn, NULL); CHECK(vnacal_apply_m(vcp, ci%s, fv, 1, md, %d, %d, vdp));' % (tagc, rows, cols))
+            body.append('      for (int r = 0; r < %d; ++r) for (int c = 0; c < %d; ++c) { double complex v = vnadata_get_cell(vdp, 0, r, c);' % (P, P))
+            body.append('        if (!(cabs(v - sd[r * %d + c]) <= %g)) { fprintf(stderr, "calibration %s: corrected S[%%d][%%d] = %%g%%+gi, device has %%g%%+gi\\n", r, c, creal(v), cimag(v), creal(sd[r * %d + c]), cimag(sd[r * %d + c])); bad = 1; } }' % (P, tol, tagc, P, P))
+            body.append('      vnadata_free(vdp); }')
+    for tagc in (['A'] + (['B'] if compare_with is not None else [])): body.append('    vnacal_new_free(vnp%s);' % tagc)
+    out += ['int main(void)', '{', '    int bad = 0;', '    static const double fv[1] = {1.0e9};', '    vnacal_t *vcp = vnacal_create(errfn, NULL);',
+            '    if (vcp == NULL) return 2;'] + body + ['    vnacal_free(vcp);', '    if (bad) { fprintf(stderr, "VF-ASSERT-FAIL: calibrate-then-apply does not recover the device\\n"); return 1; }',
+                                                          '    printf("ok\\n"); return 0;', '}', '']
+    return '\n'.join(out)
+
+
+# ---------------------------------------------------------------------------------------------------------------------
+# worker for props/calrun.run_jobs
+
+def cal_worker(mod, job):
+    """job: {'id': config name, 'tier':..., 'concrete': bool}.  One configuration: every feasible path of the symbolic run (z3 decides
+    the row identities) + the exact rational end-to-end run."""
+    from props import calcfg
+    import irx
+    cfg = calcfg.by_name(job['id'], job['tier'])
+    out = {'id': cfg.name, 'paths': 0, 'queries': 0, 'unsat': 0, 'sat': [], 'unknown': [], 'fault': None, 'solve_failed_paths': 0,
+           'generic_assumed': 0, 'funcs': [], 'systems': None, 'steps': 0, 'unexplored': []}
+    try:
+        rs = symbolic_all_paths(mod, cfg, max_paths=job.get('max_paths', 64))
+    except (irx.MemFault, irx.LibAbort) as e:
+        out['fault'] = '%s: %s' % (type(e).__name__, e); rs = []
+    funcs = set()
+    for r in rs:
+        out['paths'] += 1; out['queries'] += r['queries']; out['unsat'] += r['unsat']
+        out['sat'] += [dict(x, path=r['path']) for x in r['sat']]; out['unknown'] += r['unknown']
+        out['generic_assumed'] = max(out['generic_assumed'], len(r.get('generic_assumed', [])))
+        out['steps'] += r.get('steps', 0)
+        out['unexplored'] += r.get('unexplored', [])
+        funcs.update(r.get('funcs', []))
+        if r.get('error'): out['sat'].append({'q': 'the documented call sequence is accepted', 'detail': r['error'], 'path': r['path']})
+        elif r.get('solve_rc', 0) != 0: out['solve_failed_paths'] += 1
+        elif out['systems'] is None: out['systems'] = r.get('systems')
+    if rs and out['solve_failed_paths'] == len(rs) and not job.get('expect_underdetermined'):
+        out['sat'].append({'q': 'vnacal_new_solve succeeds on a determining set of standards', 'detail': 'solve failed on every path: %s' % rs[0].get('notes')})
+    out['funcs'] = sorted(funcs)
+    if job.get('concrete', True) and out['fault'] is None:
+        try:
+            c = concrete_check(mod, cfg, seed=job.get('seed', 1))
+            out['concrete'] = {'fail': c['fail'], 'notes': c['notes'], 'solves': c.get('solves'), 'terms': c.get('terms')}
+        except (irx.MemFault, irx.LibAbort) as e:
+            out['fault'] = '%s: %s' % (type(e).__name__, e)
+    return out
